@@ -2,8 +2,10 @@ package sim
 
 import (
 	"reflect"
+	"runtime"
 	"sync"
 	"syscall"
+	"time"
 	"unsafe"
 )
 
@@ -49,6 +51,7 @@ type Sched struct {
 	state     [maxTasks + 1]int32
 	blockedOn [maxTasks + 1]uintptr
 	ctxs      [maxTasks + 1]*OpCtx
+	goids     [maxTasks + 1]int64 // goroutine of each task (0 = main), to tell library-started goroutines apart
 	prio      [maxTasks + 1]int64
 	cand      [maxTasks + 1]int32
 
@@ -211,11 +214,44 @@ func (s *Sched) yield() {
 	}
 }
 
+// yieldAny hands the turn to a uniformly chosen other runnable task, whatever the policy (used
+// only while goroutines started by the library itself are alive; not recorded).
+//
+//go:norace
+func (s *Sched) yieldAny() {
+	me := s.curr
+	if me == 0 {
+		return
+	}
+	cnt := 0
+	for i := int32(1); i <= s.n; i++ {
+		if s.state[i] == stRunnable && i != me {
+			s.cand[cnt] = i
+			cnt++
+		}
+	}
+	if cnt == 0 {
+		return
+	}
+	s.switchTo(me, s.cand[s.rng.Intn(cnt)])
+}
+
+// spinWait lets real goroutines run; a wait that lasts longer than a minute is a real blockage.
+//
+//go:norace
+func spinWait() {
+	runtime.Gosched()
+	time.Sleep(20 * time.Microsecond)
+}
+
 // YieldPoint is a scheduling point of the harness itself (loader requests, harness caches).
 //
 //go:norace
 func YieldPoint(site string) {
 	if s := activeSched; s != nil {
+		if foreign() {
+			return
+		}
 		s.yield()
 	}
 }
@@ -223,6 +259,9 @@ func YieldPoint(site string) {
 //go:norace
 func hookYield(site string) {
 	if s := activeSched; s != nil {
+		if foreign() {
+			return
+		}
 		s.yield()
 	}
 }
@@ -249,6 +288,24 @@ func lockAddr(l interface{}) uintptr {
 //go:norace
 func hookBlock(l interface{}, site string) {
 	s := activeSched
+	if ForeignSeen() {
+		// the library starts goroutines of its own, which run for real: whoever is waited for may be
+		// one of them (or may just have finished). Never park, never give up at once: let everybody
+		// move and poll again. A wait that goes on for about half a minute is a real blockage.
+		if !foreign() {
+			if s != nil {
+				s.yieldAny()
+			}
+			if c := cur(); c != nil {
+				c.spins++
+				if c.spins > 1000000 {
+					panic("verif: blocked for good on " + site + " (library with goroutines of its own)")
+				}
+			}
+		}
+		spinWait()
+		return
+	}
 	if s == nil {
 		panic("verif: lock contended without a scheduler")
 	}
@@ -274,7 +331,7 @@ func hookBlock(l interface{}, site string) {
 //go:norace
 func hookRelease(l interface{}) {
 	s := activeSched
-	if s == nil {
+	if s == nil || foreign() {
 		return
 	}
 	a := lockAddr(l)
@@ -288,6 +345,9 @@ func hookRelease(l interface{}) {
 
 //go:norace
 func hookNoYield(on bool) {
+	if foreign() {
+		return
+	}
 	c := cur()
 	if c == nil {
 		return
@@ -383,6 +443,7 @@ func RunTasks(cfg SchedCfg, bodies []func(), ctxs []*OpCtx) SchedResult {
 		id := int32(i + 1)
 		body := bodies[i]
 		go func() {
+			s.goids[id] = goid()
 			s.waitTurn(id)
 			func() {
 				defer func() {
@@ -399,6 +460,7 @@ func RunTasks(cfg SchedCfg, bodies []func(), ctxs []*OpCtx) SchedResult {
 			done <- int(id) // real synchronisation, but only at the very end of a task
 		}()
 	}
+	s.goids[0] = goid()
 	first := s.pick(0)
 	s.giveTurn(first)
 	s.waitTurn(0)
